@@ -8,6 +8,7 @@ require (
 	github.com/golang/snappy v0.0.4
 	github.com/janelia-flyem/dvid v0.0.0
 	github.com/janelia-flyem/go v0.0.0-20180718195536-d388bdc31871
+	google.golang.org/protobuf v1.33.0
 )
 
 require (
@@ -79,7 +80,6 @@ require (
 	google.golang.org/api v0.114.0 // indirect
 	google.golang.org/genproto v0.0.0-20230410155749-daa745c078e1 // indirect
 	google.golang.org/grpc v1.56.3 // indirect
-	google.golang.org/protobuf v1.33.0 // indirect
 )
 
 replace github.com/janelia-flyem/dvid => /repo
